@@ -664,3 +664,29 @@ func c13GenSmallSig(rng *rand.Rand, limit int) *c13Sig {
 		}
 	}
 }
+
+// hasDirMap: does the type contain a typed map of directory kind (a map whose entries contain files)?
+func (t *c13Ty) hasDirMap() bool {
+	switch t.Kind {
+	case "m":
+		return t.Elem.hasFile() || t.Elem.hasDirMap()
+	case "a":
+		return t.Elem.hasDirMap()
+	case "t":
+		for _, m := range t.Ms {
+			if m.Ty.hasDirMap() {
+				return true
+			}
+		}
+	}
+	return false
+}
+
+func (s *c13Sig) hasDirMap() bool {
+	for _, p := range s.Params {
+		if p.Ty.hasDirMap() {
+			return true
+		}
+	}
+	return false
+}
